@@ -205,6 +205,8 @@ func (p *parser) scan() (tkn token.Token, literal string, idx file.Idx) { //noli
 						// TODO If strict and in strict mode, then this is not a break
 						break
 					}
+					// a reserved word can be a property name (a.class) and so end a statement
+					p.insertSemicolon = true
 					return token.KEYWORD, literal, idx
 
 				case
@@ -218,6 +220,8 @@ func (p *parser) scan() (tkn token.Token, literal string, idx file.Idx) { //noli
 					return tkn, literal, idx
 
 				default:
+					// a keyword can be a property name (a.if) and so end a statement
+					p.insertSemicolon = true
 					return tkn, literal, idx
 				}
 			}
